@@ -311,10 +311,13 @@ def main():
                  "and never written at run time. When a rule that recognises code by its shape fails, the check first tries "
                  "to prove every function of the tree equal to the reference tree (E8, DESIGN section 9); only if that "
                  "fails is the violation reported. bvstatic/data/*.json are references frozen from the confirmed tree by "
-                 "tools/freeze_*.py and are never written by a check. Besides its own rules every check runs four generic "
+                 "tools/freeze_*.py and are never written by a check. Besides its own rules every check runs generic "
                  "clauses on the files / functions of its property (DESIGN section 10): SIG (parameter defaults), MEMO (no "
-                 "untabled cache or registry), PIN and ANCHOR (functions the property depends on, and every function its rules "
-                 "read, are proven equal to their reference version by E8).",
+                 "untabled cache or registry), PIN / ANCHOR / FILE (the functions the property depends on, every function its "
+                 "rules read, every other function and every class- or module-level name of its anchored files) and DEP (the "
+                 "units outside the anchored files that the anchored code reads directly: a table frozen from the reference "
+                 "graph of bvstatic/cone.py, each group with its reason) are proven equal to their reference version by E8; "
+                 "a DEP report names the reference path from the anchored files to the changed unit.",
     }
     with open(os.path.join(HERE, "MANIFEST.json"), "w") as f:
         json.dump(man, f, indent=1, ensure_ascii=False)
